@@ -8,13 +8,20 @@
         3-octet strings per first octet; sampled fixed parts with every varying part on the 2-octet fields), with key
         validation compiled in and compiled out;
       * key generation from every random octet value, public key from every private key, Diffie-Hellman of chosen private
-        keys with EVERY point as peer, plain and with cofactor (TLC proves symmetry on every row).
+        keys with EVERY point as peer, plain and with cofactor (TLC proves symmetry on every row);
+      * kind "forms": valid points of all four (most significant octet of y, least significant octet of y) parity classes
+        in every encoding import accepts - compressed, packed, hybrid 06/07 with agreeing and contradicting prefix,
+        separate, concat - x both byte orders, verdict = KeyCodec!Import; kind "priv": public key from private-key OCTETS:
+        every octet value on the 8-bit fields, 0 / 1 / 2 / n-2 / n-1 / n / n+1 / 2n-1 / all-ones / shorter / longer
+        strings elsewhere, verdict = KeyCodec!PrivImport (0 and d >= n are refused).
     Every byte-string argument is an exactly-sized heap block; one build runs under AddressSanitizer, which observes
     "reads and writes only within the sizes the caller passed" (plus dedicated size-edge calls).
 (C) the 32 built-in curves x both byte orders: generated keys re-imported in every form, public key from the private key,
     DH symmetry with and without cofactor; a handful of the tuples are recomputed by TLC through BigNat (EcdsaTrace).
+    The same "forms" / "priv" cases for every built-in curve come from specs/ec/KeyCodecBigGen.tla (KeyCodec over BigNat;
+    KeyCodecBigSelf makes TLC compare the two definitions on the synthetic curves).
 Python renders numbers to octets, runs processes and compares values; it computes no expectation."""
-import os, random, time, threading
+import os, random, time, threading, json
 from concurrent.futures import ThreadPoolExecutor
 from rig import common
 from rig import ecdsa_rig as R
@@ -22,7 +29,8 @@ from rig import ecdsa_modec as M
 from rig.ecdsa_rig import TOY8, TOYBIG, hx, ihex, to_bytes, parse_pt
 from rig.checks.c03 import Fails
 
-INV = ["RoundTrip", "Parity", "TableIsDefn", "ScanSound", "KeyGenSound", "DHSym"]
+INV = ["RoundTrip", "Parity", "TableIsDefn", "ScanSound", "KeyGenSound", "DHSym", "FormsSound", "PrivSound"]
+PUBFORMS = (("compressed", (1, 0)), ("packed", (0, 0)), ("separate", (0, 1)))
 FORMS = ["compressed", "packed", "separate", "concat"]
 
 def consts(curves, seed, **kw):
@@ -94,6 +102,58 @@ def check_points(ctx, F, b, rows_by, quick, rng):
             else:
                 st = (row["impon"] if b.pubchk else row["impoff"])[arg]
                 judge_import(F, fn, b, ln, st, rc, parse_pt(f["pt"]) if rc == 0 else None, FORMS[arg])
+    return n
+
+
+# ------------------------------------------------------------------ every encoding form of chosen valid points; private-key octet strings
+def run_forms(F, b, cn, order, rows, conv=lambda st: st):
+    """rows = [{pt, par, encs: [{tag, x, y, on, off}]}]: import every encoding, verdict = the reference's (on / off = validation)"""
+    lines = []; meta = []
+    for row in rows:
+        for e in row["encs"]:
+            lines.append("import %s %s %s %s" % (cn, order, hx(bytes(e["x"])), hx(bytes(e["y"])) if e["y"] else "-")); meta.append(e)
+    fn = "ecdsa_pub_key_import_" + order
+    n = 0
+    for ln, e, a in zip(lines, meta, R.run_lines(b, lines)):
+        if isinstance(a, dict): crash(F, fn, b, ln, a); continue
+        f = kvs(a); rc = int(f["rc"]); n += 1
+        judge_import(F, fn, b, ln, conv(e["on"] if b.pubchk else e["off"]), rc, parse_pt(f["pt"]) if rc == 0 else None, e["tag"])
+    return n
+
+def run_priv(F, b, cn, order, rows, all_forms=True):
+    """rows = [{ds, st, pub: [] | [{comp, packed, sepx, sepy}]}]: public key from private-key octets.  Refused strings go
+    through every output form; accepted ones through every form (all_forms) or one form in turn"""
+    lines = []; meta = []
+    for i, row in enumerate(rows):
+        for j, (form, (compress, ysep)) in enumerate(PUBFORMS):
+            if row["st"] != "reject" and not all_forms and j != i % 3: continue
+            lines.append("pubkey %s %s %d %d %s" % (cn, order, compress, ysep, hx(bytes(row["ds"])))); meta.append((row, form))
+    fn = "ecdsa_recover_pub_key_from_priv_key_" + order
+    n = 0
+    for ln, (row, form), a in zip(lines, meta, R.run_lines(b, lines)):
+        if isinstance(a, dict): crash(F, fn, b, ln, a); continue
+        f = kvs(a); rc = int(f["rc"]); n += 1
+        rp = {"case": ln, "build": b.name}
+        if row["st"] == "reject":
+            if rc == 0:
+                cls = row.get("cls") or ("d=0" if not any(row["ds"]) else "d>=n")
+                # one defect (binary fixed-point multiplier only): the outcome of d*G is not looked at, 0*G = O "succeeds" as in ecdsa_key_gen before its fix
+                key = "ecdsa_recover_pub_key_from_priv_key:accepts-private-key-0" if cls == "d=0" else "%s:accepts-invalid-private-key:%s" % (fn, cls)
+                F.add(key, "%s\nbuild %s\ncase %s\n%s\nthe octets are no private key (0, or not below the group order): the reference refuses them" % (fn, b.name, ln, a), rp)
+            continue
+        if rc != 0:
+            if row["st"] == "ok": F.add("%s:%s:fails-for-valid-input" % (fn, form), "build %s\ncase %s\n%s" % (b.name, ln, a), rp)
+            continue
+        ex, ey = enc_of(row["pub"][0], form)
+        got = (bytes.fromhex(f["x"]) if f["x"] != "-" else None, bytes.fromhex(f["y"]) if f["y"] != "-" else None)
+        if got != (ex, ey) or int(f["size"]) != len(ex):
+            F.add("%s:%s:wrong-octets" % (fn, form), "build %s\ncase %s\n%s\nreference x=%s y=%s size=%d" % (b.name, ln, a, hx(ex), hx(ey) if ey else "-", len(ex)), rp)
+    return n
+
+def check_forms_priv(ctx, F, b, forms, privs):
+    n = 0
+    for (cn, order), rows in sorted(forms.items()): n += run_forms(F, b, cn, order, rows)
+    for (cn, order), rows in sorted(privs.items()): n += run_priv(F, b, cn, order, rows)
     return n
 
 # ------------------------------------------------------------------ scans
@@ -272,7 +332,7 @@ def check_sizes(ctx, F, b, rows_by):
     return n
 
 # ------------------------------------------------------------------ tier (B)
-def tier_b(ctx, F, builds):
+def tier_b(ctx, F, builds, tlc_free=None):
     rng = random.Random(ctx.seed + 909)
     quick = ctx.quick; t0 = time.time()
     curves = TOY8 + TOYBIG
@@ -297,9 +357,13 @@ def tier_b(ctx, F, builds):
         keys = {1, 2} | ({0} if (not quick and cn in TOY8) else set())
         ks = R.tset(keys | {1001, 1002} | set(rng.sample(range(3, 50), 3 if quick else 8)))
         parts.append(("dh-" + cn, R.write_cfg("c09_dh_%s.cfg" % cn, consts([cn], ctx.seed, Kinds='{"dh"}', DhKeys=ks), INV)))
+    parts.append(("forms-priv", R.write_cfg("c09_forms_priv.cfg", consts(curves, ctx.seed, Kinds='{"forms", "priv"}'), INV)))
     parts.sort(key=lambda p: 0 if p[0].startswith("scan") else 1)
-    cases = R.run_partitions(ctx, "KeyCodecGen", parts, par=4)
-    rows_by = {}; kg = {}; scans = []; dh = {}; seen_scans = set()
+    try:
+        cases = R.run_partitions(ctx, "KeyCodecGen", parts, par=4)
+    finally:
+        if tlc_free is not None: tlc_free.set()        # tier C's generator may use the TLC slots now
+    rows_by = {}; kg = {}; scans = []; dh = {}; seen_scans = set(); forms = {}; privs = {}
     for c in cases:
         if c["kind"] == "points": rows_by[(c["curve"], c["order"])] = c["out"]
         elif c["kind"] == "keygen": kg[(c["curve"], c["order"])] = c["out"]
@@ -307,6 +371,16 @@ def tier_b(ctx, F, builds):
             k = (c["curve"], c["order"], c["val"], tuple(c["out"]["fixed"]), c["out"]["nvar"], c["out"]["sep"], tuple(c["out"]["y"]))
             if k not in seen_scans: seen_scans.add(k); scans.append(c)
         elif c["kind"] == "dh": dh[(c["curve"], c["sel"])] = c["out"]
+        elif c["kind"] == "forms": forms[(c["curve"], c["order"])] = c["out"]
+        elif c["kind"] == "priv": privs[(c["curve"], c["order"])] = c["out"]
+    # vacuity of the two list kinds (TLC's FormsSound / PrivSound state the same on the spec side)
+    for cn in TOYBIG:
+        for order in ("be", "le"):
+            if {tuple(r["par"]) for r in forms.get((cn, order), [])} != {(0, 0), (0, 1), (1, 0), (1, 1)}:
+                raise common.Infra("forms corpus of %s/%s does not cover the four octet-parity classes" % (cn, order))
+    if len(privs) != 2 * len(curves) or not all(any(r["st"] == "reject" and any(r["ds"]) for r in v) and any(r["st"] == "ok" for r in v) for v in privs.values()):
+        raise common.Infra("private-key corpus is incomplete")
+    ctx.add(form_cases=sum(len(r["encs"]) for v in forms.values() for r in v), private_key_strings=sum(len(v) for v in privs.values()))
     ctx.cov["tlc_wall_s"] = round(time.time() - t0, 1)
     ctx.add(point_rows=sum(len(v) for v in rows_by.values()), scan_states=len(scans), strings_scanned_per_build=sum(s["out"]["n"] for s in scans if s["val"]),
             keygen_rows=sum(len(v) for v in kg.values()), dh_rows=len(dh))
@@ -320,6 +394,7 @@ def tier_b(ctx, F, builds):
         if b.asan and quick: mine = [s for s in mine if s["out"]["n"] <= 256 or r2.random() < 0.15]
         n += check_scans(ctx, F, b, mine)
         n += check_keygen(ctx, F, b, kg, rows_by)
+        n += check_forms_priv(ctx, F, b, forms, privs)
         dsel = dh if not (b.asan and quick) else {k: v for k, v in dh.items() if r2.random() < 0.4}
         n += check_dh(ctx, F, b, dsel, rows_by, r2, quick)
         n += check_sizes(ctx, F, b, rows_by)
@@ -341,11 +416,98 @@ def tier_c_rounds(ctx, F, builds):
         if i == 0: cs = curves
         elif ctx.quick: cs = rng.sample([c for c in curves if c.m <= (192 if b.asan else 256)], 2 if b.asan else 4)
         else: cs = rng.sample(curves, 8 if b.asan else 16)
+        sel[i] = cs
         return key_round(ctx, F, b, cs, rng)
+    sel = {}
     with ThreadPoolExecutor(max_workers=min(2, len(builds))) as ex:
         res = list(ex.map(per_build, enumerate(builds)))
     ctx.log("tier C: library rounds done (%.0fs)" % (time.time() - t0))
-    return dict(res=res, ncurves=len(curves))
+    return dict(res=res, ncurves=len(curves), curves=curves, sel=sel)
+
+
+# ------------------------------------------------------------------ tier (C): spec-generated encodings / private-key strings
+def lnum(l): return sum(v << (13 * i) for i, v in enumerate(l))
+def big_verdict(st): return {"st": st["st"], "pt": [lnum(v) for v in st["pt"]]}
+
+def builtin_spec_cases(ctx, F, curves):
+    """KeyCodecBigGen (TLC over KeyCodecBig) -> {curve name: record}; three generator processes and the self-check
+    KeyCodecBigSelf side by side.  `full` jobs (a seeded few in the quick tier, m <= 256) also get the strings whose d*G
+    needs a full-size multiplication and the order check of one chosen point."""
+    t0 = time.time()
+    M.compile_override()
+    rng = random.Random(ctx.seed * 2749 + 3)
+    full = set(c.name for c in (rng.sample([c for c in curves if c.m <= 256], 3) if ctx.quick else curves))
+    d = common.scratch("lcbv-kcbig-")
+    jobs = []
+    for i, cv in enumerate(curves):
+        extra = [[rng.randrange(256) for _ in range(cv.bytes)]] if cv.name in full else []
+        jobs.append({"id": i, "name": cv.name, "c": cv.tla(), "full": cv.name in full, "extra": extra, "_cost": (cv.m / 256.0) ** 2 * (1 + (9 * cv.m / 256.0 if cv.name in full else 0))})
+    k = 3; chunks = [[] for _ in range(k)]; load = [0.0] * k
+    for j in sorted(jobs, key=lambda j: -j["_cost"]):
+        q = load.index(min(load)); chunks[q].append(j); load[q] += j["_cost"]
+    def gen(ix):
+        path = os.path.join(d, "kcbig-%d.ndjson" % ix)
+        with open(path, "w") as f:
+            for j in chunks[ix]: f.write(json.dumps({kk: v for kk, v in j.items() if not kk.startswith("_")}, separators=(",", ":")) + "\n")
+        r = common.tlc("KeyCodecBigGen", workers=1, env={"TRACE": path}, timeout=2400, xss="512m", xmx="3g")
+        if r.rc != 0: raise common.Infra("KeyCodecBigGen failed:\n" + r.out[-3000:])
+        out = common.tlc_printed_json(r.out)
+        rec = [x for x in out if "done" in x]
+        if not rec or rec[0]["done"] != len(chunks[ix]) or not rec[0]["xactive"]:
+            raise common.Infra("KeyCodecBigGen receipt missing or override inactive:\n" + r.out[-2000:])
+        return r, [x for x in out if "forms" in x]
+    def selfchk(_):
+        r = common.tlc("KeyCodecBigSelf", workers=1, timeout=1500, xss="256m", xmx="3g")
+        if r.rc != 0 or "limb-tuple key codec agrees" not in r.out:
+            raise common.Infra("KeyCodecBigSelf failed (KeyCodecBig differs from KeyCodec on the synthetic curves):\n" + r.out[-3000:])
+        return r, None
+    with ThreadPoolExecutor(max_workers=4) as ex:
+        res = list(ex.map(lambda t: t[0](t[1]), [(selfchk, 0)] + [(gen, ix) for ix in range(k) if chunks[ix]]))
+    spec = {}
+    for ix, (r, recs) in enumerate(res):
+        ctx.tlc_stats(r, "KeyCodecBigSelf" if recs is None else "KeyCodecBigGen/%d" % ix)
+        for x in recs or []: spec[x["name"]] = x
+    if set(spec) != set(c.name for c in curves): raise common.Infra("KeyCodecBigGen answered %d of %d curves" % (len(spec), len(curves)))
+    for cv in curves:
+        x = spec[cv.name]
+        if not x["oncurve"] or x["ordchk"] == "fails":
+            # the curve record comes from the library's table: G is not on the curve / n does not annihilate a multiple of G
+            F.add("ecdsa_curve_from_str:%s:base-point-%s" % (cv.name, "off-the-curve" if not x["oncurve"] else "not-annihilated-by-n"),
+                  "curve %s as loaded by the library: %s" % (cv.name, json.dumps(cv.tla())), {"case": "curve " + cv.name, "build": "-"})
+            spec[cv.name] = None; continue
+        for fo in x["forms"]:
+            if {tuple(r["par"]) for r in fo["rows"] if r["k"] != 0} != {(0, 0), (0, 1), (1, 0), (1, 1)}:
+                raise common.Infra("forms corpus of %s/%s does not cover the four octet-parity classes" % (cv.name, fo["order"]))
+        for po in x["priv"]:
+            if not {"d=0", "d>=n", "in-range"} <= {r["cls"] for r in po["rows"]}: raise common.Infra("private-key corpus of %s is incomplete" % cv.name)
+            for r in po["rows"]:
+                if r["pub"]: r["pub"][0]["pt"] = [lnum(v) for v in r["pub"][0]["pt"]]
+    ctx.cov["mode_c_spec_cases"] = {"curves": len(spec), "curves_with_full_size_private_keys_and_order_check": sorted(full),
+                                    "encodings_per_curve": sum(len(r["encs"]) for fo in spec[curves[0].name]["forms"] for r in fo["rows"]) if spec[curves[0].name] else 0,
+                                    "wall_s": round(time.time() - t0, 1)}
+    ctx.log("tier C: KeyCodecBigGen: forms / private-key strings for %d curves (%d with full-size multiplications) in %.0fs" % (len(spec), len(full), time.time() - t0))
+    return spec
+
+def tier_c_spec(ctx, F, builds, st):
+    """every built-in curve on the two builds of the suite configuration (validation off / on), the seeded subsets elsewhere"""
+    spec = builtin_spec_cases(ctx, F, st["curves"])
+    t0 = time.time()
+    def per_build(ib):
+        i, b = ib
+        cs = st["curves"] if (i < 2 and not b.asan) else st["sel"][i]
+        n = 0
+        for cv in cs:
+            x = spec.get(cv.name)
+            if x is None: continue
+            for fo in x["forms"]: n += run_forms(F, b, cv.name, fo["order"], fo["rows"], conv=big_verdict)
+            for po in x["priv"]: n += run_priv(F, b, cv.name, po["order"], po["rows"], all_forms=False)
+        return n
+    with ThreadPoolExecutor(max_workers=min(4, len(builds))) as ex:
+        counts = list(ex.map(per_build, enumerate(builds)))
+    st["spec_calls"] = sum(counts)
+    ctx.add(evaluations=sum(counts), distinct_nontrivial=sum(len(r["encs"]) for x in spec.values() if x for fo in x["forms"] for r in fo["rows"])
+            + sum(len(po["rows"]) for x in spec.values() if x for po in x["priv"]))
+    ctx.log("tier C: %d library calls on spec-generated encodings / private-key strings (%.0fs)" % (sum(counts), time.time() - t0))
 
 def tier_c_finish(ctx, F, st):
     res = st["res"]
@@ -426,7 +588,7 @@ def key_round(ctx, F, b, curves, rng):
         if op == "import":
             want = [M.val(k["qx"], o), M.val(k["qy"], o)]
             if rc != 0 or parse_pt(f["pt"]) != want:
-                if not (form == "hybrid" and rc != 0):
+                if True:      # the hybrid form with the agreeing prefix is a standard encoding too (KeyCodec!ImportW: "ok")
                     F.add("%s:%s:%s" % (fn, form, "rejects-own-export" if rc else "decodes-to-wrong-point"), "build %s\ncase %s\n%s\nexported from %s" % (b.name, ln, a, k["line"]), {"case": ln, "build": b.name})
         elif op == "import-flipped":
             if rc == 0:
@@ -457,6 +619,19 @@ def key_round(ctx, F, b, curves, rng):
     return evs, ncalls
 
 # ------------------------------------------------------------------ entry point
+class Later:
+    """coverage bookkeeping of the tier-C thread, replayed on the main thread after the join (Context.add is a plain
+    read-modify-write and tier B counts on the main thread at the same time); everything else is the context's own"""
+    def __init__(self, ctx): self._ctx = ctx; self._calls = []; self.cov = {}
+    def __getattr__(self, k): return getattr(self._ctx, k)
+    def add(self, **kw): self._calls.append(("add", kw))
+    def tlc_stats(self, r, label): self._calls.append(("tlc", (r, label)))
+    def replay(self):
+        for k, a in self._calls:
+            if k == "add": self._ctx.add(**a)
+            else: self._ctx.tlc_stats(*a)
+        self._ctx.cov.update(self.cov)
+
 def run(ctx):
     ctx.level = "model_checking"
     d = common.scratch("lcbv-c09-")
@@ -477,20 +652,31 @@ def run(ctx):
     ctx.log("built %d drivers: %s" % (len(builds), [b.name for b in builds]))
     only = os.environ.get("VERIF_C09_ONLY", "")
     cres = {}; ct = None
+    tlc_free = threading.Event(); lctx = Later(ctx)
     if only != "b":
         M.start_self_check()
         def work():
-            try: cres["st"] = tier_c_rounds(ctx, F, builds)
+            try:
+                cres["st"] = tier_c_rounds(ctx, F, builds)
+                tlc_free.wait()                                  # tier B's partitions hold the TLC slots until then
+                tier_c_spec(lctx, F, builds, cres["st"])         # KeyCodecBigGen + its library calls while tier B's drivers run,
+                tier_c_finish(lctx, F, cres["st"])               # then the EcdsaTrace judge (again <= 4 TLC processes)
             except BaseException as e: cres["err"] = e
         ct = threading.Thread(target=work); ct.start()          # library part of tier C while TLC enumerates tier B
-    if only != "c": tier_b(ctx, F, builds)
+    if only != "c":
+        try: tier_b(ctx, F, builds, tlc_free)
+        finally: tlc_free.set()
+    else: tlc_free.set()
     if ct is not None:
         ct.join()
         if "err" in cres: raise cres["err"]
-        tier_c_finish(ctx, F, cres["st"])
+        lctx.replay()
     F.flush()
     ctx.add(samples=["export E8C4 le 1 0 1 57", "import E13 be 02000f -", "impscan E8G be 04 2   (all 65536 strings 04 x y)", "impsep E13 le 0f00   (every second block)",
                      "keygen E8M3 be 1 1 df", "pubkey E16M3 le 0 1 9ffe", "dh E8C4 be 1 0301 - 1f", "dhbn E13 0 f cde 1f98", "sign secp256r1 - be 1111..(35 octets) 01 07   (size edge, ASan)",
+                     "import E13 le 07c913ce14 -   (hybrid form, y = 14ce: most significant octet even, least significant even, prefix contradicts: may)",
+                     "pubkey E13 be 0 0 1f99   (d = n: refused)", "pubkey secp256r1 le 1 0 <n + 1, 32 octets>   (refused)",
+                     "import secp521r1 le 06<x><y> -   (hybrid, spec-chosen k*G of each octet-parity class)",
                      "keygen brainpoolP384r1 le 0 1 <48 random octets>", "import secp521r1 be 03<x> -   (other root)", "dh secp112r2 le 1 <peer> - <priv>"])
     ctx.cov["builds"] = [b.name for b in builds]
     ctx.cov["rule"] = ("tier B: reachable states of KeyCodecGen under the slice in the .cfg files: one row per point of the whole group, one scan state per "
@@ -500,6 +686,8 @@ def run(ctx):
         "oracle = specs/ec/KeyCodec.tla on EcGroup.tla evaluated by TLC; import o export = identity, the parity law, soundness of the accepted set and DH symmetry are TLC invariants on every generated state",
         "with key validation compiled out (EC_DISABLE_PUB_KEY_CHK) whatever is not a valid key is unspecified, except that a compressed key with a square root must decode to the root of the requested parity",
         "hybrid encodings (06/07) whose prefix contradicts the parity of y, and the collisions of the raw forms with the SEC 1 forms on a one-octet field, may be refused; if accepted they must denote the stated point",
+        "private-key octets (public key from private key): d = 0 and d >= n are no private keys and must be refused; an octet string longer than the field may be refused (documented size precondition), if accepted the result must be d*G",
+        "built-in curves: the curve record handed to KeyCodecBigGen is the one the library loaded (its table is C02's subject); it defines n as the order of G, so the multiples k*G used as valid keys are annihilated by n - TLC checks the curve equation for all of them and multiplies one by n for the `full` curves; compressed encodings are decided with the point's y as root witness",
         "random octets -> private key: both documented maps are admitted (Ecdsa!SecretSet); key generation may fail only where 0 is among the admitted values",
         "memory safety is observed by AddressSanitizer on exactly-sized heap blocks in the ASan builds (UBSan is not enabled: the arithmetic headers have benign reports that are C01's subject)",
         "configurations hit by open findings of C02 are not built here (unknown-point window wider than the fixed-point window, affine BIN_PRECALC_DBL, comb window wider than a digit, affine + INTER)",
